@@ -1451,3 +1451,37 @@ Proof.
   - intros pre ck rest. apply first_run_from_checkpoint; assumption.
   - intros all. apply first_run_no_checkpoint; assumption.
 Qed.
+
+(** Files older than the first (smallest) revision are never named, whatever the order:
+    the out-of-order window starts at [revs[0]] ("first can be set to the first checkpoint"). *)
+Lemma result_not_before_first (hash : Type) c all (revs : list (rev hash)) r0 f :
+  sorted_files all -> sorted_revs revs -> revs <> [] ->
+  In f (result_files (fst (pending c all revs))) ->
+  bytes_leb (r_version (hd r0 revs)) (f_version f) = true.
+Proof.
+  intros Hsa Hsr Hne Hf.
+  assert (bytes_leb (r_version (hd r0 revs)) (r_version (last revs r0)) = true) as Hfl.
+  { assert (In (hd r0 revs) revs) as Hin by (destruct revs; [congruence|left; reflexivity]).
+    destruct (sorted_revs_last_max hash revs r0 _ Hsr Hin) as [E|L].
+    - rewrite <- E. apply bytes_leb_refl.
+    - apply bytes_ltb_leb. exact L. }
+  rewrite (pending_hist_spec hash c all revs r0 Hsa Hsr Hne) in Hf. unfold hist_spec in Hf. cbv zeta in Hf.
+  assert (forall x, In x (newer (r_version (last revs r0)) all) ->
+          bytes_leb (r_version (hd r0 revs)) (f_version x) = true) as Hnew.
+  { intros x Hx. apply newer_In in Hx as (_ & _ & L). apply bytes_ltb_leb.
+    eapply bytes_leb_ltb_trans; eauto. }
+  assert (forall x, In x (ooo_files (r_version (hd r0 revs)) (r_version (last revs r0)) revs all) ->
+          bytes_leb (r_version (hd r0 revs)) (f_version x) = true) as Hooo.
+  { intros x Hx. apply ooo_files_In in Hx as (_ & _ & L & _). exact L. }
+  assert (forall g, bytes_eqb (f_version g) (r_version (last revs r0)) = true ->
+          In f (g :: newer (r_version (last revs r0)) all) ->
+          bytes_leb (r_version (hd r0 revs)) (f_version f) = true) as Hcons.
+  { intros g Hg [<-|Hn]; [|apply Hnew; exact Hn]. apply bytes_eqb_eq in Hg. rewrite Hg. exact Hfl. }
+  destruct (r_applied (last revs r0) =? r_total (last revs r0)).
+  - simpl in Hf. apply by_order_files in Hf as [Hf|Hf]; auto.
+  - destruct (find _ all) as [g|] eqn:Efind.
+    + apply find_some in Efind as [_ Hg]. destruct (f_ckpt g); simpl in Hf.
+      * exact (Hcons g Hg Hf).
+      * apply by_order_files in Hf as [Hf|Hf]; [auto|exact (Hcons g Hg Hf)].
+    + destruct (existsb _ all); simpl in Hf; destruct Hf.
+Qed.
